@@ -497,6 +497,24 @@ pub fn c11(a: &Args) {
                 }
             }
         }
+        // a rule chosen and then set back to "default" (null) through the JS-facing linter, and through a fresh core overlay
+        {
+            let curated = LintGroupConfig::new_curated();
+            for (k, name) in names.iter().enumerate().filter(|(k, _)| k % 12 == 0) {
+                let first = k % 24 == 0;       // the explicit choice made first
+                let r = catch(|| {
+                    let mut l = harper_wasm::Linter::new(harper_wasm::Dialect::American);
+                    l.set_lint_config_from_json(json!({ name.as_str(): first }).to_string()).unwrap();
+                    l.set_lint_config_from_json(json!({ name.as_str(): Value::Null }).to_string()).unwrap();
+                    let mut c: LintGroupConfig = serde_json::from_str(&l.get_lint_config_as_json()).unwrap();
+                    c.fill_with_curated();
+                    c.is_rule_enabled(name)
+                });
+                if let Ok(got) = r {
+                    out.emit(&json!({"ev": "Unset", "entry": "wasm", "rule": name, "first": first, "want": curated.is_rule_enabled(name), "got": got}));
+                }
+            }
+        }
         // configuration shapes: nearly complete, complete, padded with names that are not rules, nulls - the
         // effective switch of EVERY rule after the overlay is compared (unmentioned: curated default; explicit wins)
         {
